@@ -24,6 +24,10 @@ type cfg struct {
 	Pcts  []float64
 	Limit uint32
 	Mask  int // 0 none, 1 all, 2..16 single, 17 all non-percentile, 18 all percentile
+	// Expiry: the server runs with --expiry-interval=5m instead of 0, the aggregator reads the world's clock, every batch is
+	// stamped with it and the alphabet has one more operation, "idle" (the clock moves on by ten minutes): the flush
+	// after it expires whatever was not refreshed
+	Expiry bool `json:",omitempty"`
 }
 
 var pctLists = [][]float64{nil, {90}, {-90}, {100}, {-100}, {0}, {50, -50}, {1, 99}}
@@ -57,10 +61,10 @@ func disabled(mask int) (map[string]bool, gostatsd.TimerSubtypes) {
 }
 
 // batches of the alphabet
-func batch(i int) *gostatsd.MetricMap {
+func batch(i int, ts gostatsd.Nanotime) *gostatsd.MetricMap {
 	mm := gostatsd.NewMetricMap(false)
 	add := func(name string, ty gostatsd.MetricType, v float64, tags ...string) {
-		mm.Receive(&gostatsd.Metric{Name: name, Type: ty, Value: v, StringValue: "m", Rate: 1, Tags: append(gostatsd.Tags{}, tags...), Source: "h", Timestamp: 7})
+		mm.Receive(&gostatsd.Metric{Name: name, Type: ty, Value: v, StringValue: "m", Rate: 1, Tags: append(gostatsd.Tags{}, tags...), Source: "h", Timestamp: ts})
 	}
 	switch i {
 	case 0:
@@ -86,7 +90,7 @@ func batch(i int) *gostatsd.MetricMap {
 
 const nBatches = 8
 
-var opName = []string{"timer1", "timer2", "hist:1_5", "hist:bad", "hist:10__20", "counter", "gauge", "set", "flush"}
+var opName = []string{"timer1", "timer2", "hist:1_5", "hist:bad", "hist:10__20", "counter", "gauge", "set", "flush", "idle"}
 
 func dumpMap(mm *gostatsd.MetricMap) string {
 	var parts []string
@@ -149,11 +153,26 @@ func runBackend(kind string, bs int, c cfg, mm *gostatsd.MetricMap) string {
 }
 
 type world struct {
-	ag *statsd.MetricAggregator
+	ag  *statsd.MetricAggregator
+	now time.Time
+}
+
+func (w *world) key() string {
+	k := dumpMap(w.ag.VerifMap())
+	if !w.now.IsZero() {
+		k += "|now=" + fmt.Sprint(w.now.Unix())
+	}
+	return k
 }
 
 func newWorld(c cfg) *world {
 	dkeys, _ := disabled(c.Mask)
+	if c.Expiry {
+		w := &world{now: time.Unix(1000, 0)}
+		w.ag = statsd.VerifWiredAggregator(*verifServer([]string{verifPctArg(c.Pcts), "--expiry-interval=5m", fmt.Sprintf("--timer-histogram-limit=%d", c.Limit)}, dkeys))
+		w.ag.VerifSetNow(func() time.Time { return w.now })
+		return w
+	}
 	return &world{ag: statsd.VerifWiredAggregator(*verifServer([]string{verifPctArg(c.Pcts), "--expiry-interval=0s", fmt.Sprintf("--timer-histogram-limit=%d", c.Limit)}, dkeys))} // expiry 0: series persist, so idle flushes are reachable
 }
 
@@ -191,7 +210,15 @@ func (w *world) apply(c cfg, seq []int, op int, withBackends bool) (viol string,
 	}()
 	res.Transitions++
 	if op < nBatches {
-		w.ag.ReceiveMap(batch(op))
+		ts := gostatsd.Nanotime(7)
+		if c.Expiry {
+			ts = gostatsd.Nanotime(w.now.UnixNano())
+		}
+		w.ag.ReceiveMap(batch(op, ts))
+		return
+	}
+	if op == nBatches+1 {
+		w.now = w.now.Add(10 * time.Minute)
 		return
 	}
 	w.ag.Flush(time.Second)
@@ -241,19 +268,23 @@ func replaySeq(c cfg, seq []int, backendsOnLast bool) (*world, string) {
 
 func explore(c cfg, depth int, states map[string]struct{}) {
 	frontier := [][]int{nil}
-	seen := map[string]bool{dumpMap(newWorld(c).ag.VerifMap()): true}
+	seen := map[string]bool{newWorld(c).key(): true}
+	nOps := nBatches + 1
+	if c.Expiry {
+		nOps++
+	}
 	for d := 0; d < depth && len(frontier) > 0; d++ {
 		var next [][]int
 		for _, seq := range frontier {
-			for op := 0; op <= nBatches; op++ {
+			for op := 0; op < nOps; op++ {
 				ns := append(append([]int{}, seq...), op)
 				w, pm := replaySeq(c, ns, true)
 				if pm != "" {
 					res.Violate("aggregator "+stackKey(pm), fmt.Sprintf("config %+v, sequence %v: %s", c, names(ns), pm), map[string]any{"cfg": c, "seq": ns})
 					continue
 				}
-				k := dumpMap(w.ag.VerifMap())
-				states[fmt.Sprintf("%v|%d|%d|%s", c.Pcts, c.Limit, c.Mask, k)] = struct{}{}
+				k := w.key()
+				states[fmt.Sprintf("%v|%d|%d|%v|%s", c.Pcts, c.Limit, c.Mask, c.Expiry, k)] = struct{}{}
 				if !seen[k] {
 					seen[k] = true
 					next = append(next, ns)
@@ -300,14 +331,19 @@ func main() {
 				if !vrt.Mine(i) || vrt.Expired() {
 					continue
 				}
-				explore(cfg{p, l, m}, depth, states)
+				explore(cfg{Pcts: p, Limit: l, Mask: m}, depth, states)
+			}
+			// with expiry: series that were not refreshed for ten minutes disappear at the next flush
+			i++
+			if vrt.Mine(i) && !vrt.Expired() {
+				explore(cfg{Pcts: p, Limit: l, Expiry: true}, depth, states)
 			}
 		}
 	}
 	if vrt.Expired() {
 		res.Exhaustive = false
 	}
-	res.Sample(map[string]any{"config": cfg{[]float64{-100}, 0, 0}, "sequence": []string{"hist:1_5", "flush", "flush"}, "backends": bk.Kinds})
+	res.Sample(map[string]any{"config": cfg{Pcts: []float64{-100}}, "sequence": []string{"hist:1_5", "flush", "flush"}, "backends": bk.Kinds})
 	res.States = int64(len(states))
 	res.DistinctNontrivial = int64(len(nontrivial))
 	res.Traces = res.Evaluations
